@@ -9,7 +9,7 @@ Monitor    : the property evaluated directly on the implementation's outputs (id
              exact, what a delivery runs, independence of signals, disposition sticky with flags, EINTR).
 
 Encoding of a history (list of ints), mirrored in coq/seqreg/Run.v and p_c05.rs:
-   npre (sig kind tag)*npre  item*     kind 0 dfl | 1 ign | 2 user handler | 3 user handler (SA_SIGINFO)
+   npre (sig kind tag)*npre  item*     kind 0 dfl | 1 ign | 2 user handler | 3 user handler (SA_SIGINFO) | 4, 5 = 2, 3 with SA_RESETHAND|SA_NODEFER and a mask (probe only)
    item: 1 sig tag register | 2 sig tag register_sigaction | 3 sig id unregister | 4 sig unregister_signal
          5 sig raise | 6 sig report disposition
 """
@@ -60,7 +60,7 @@ def gen_history(rnd, consts, tier, maxlen):
     pre = {}
     h = [nsig]
     for s in sigs:
-        k = rnd.choices([0, 1, 2, 3], [55, 15, 15, 15])[0]
+        k = rnd.choices([0, 1, 2, 3, 4, 5], [50, 14, 10, 10, 8, 8])[0]
         tag = 900000 + s if k >= 2 else 0
         pre[s] = k
         h += [s, k, tag]
@@ -95,13 +95,14 @@ def gen_history(rnd, consts, tier, maxlen):
             stale += [(s, i) for i in live[s]]
             live[s] = []
         elif r < 0.94:
-            if s in taken or pre[s] != 0 or s in ignored:
+            # (a SA_RESETHAND foreign handler is consumed by a delivery that precedes the take-over)
+            if s in taken or pre[s] in (1, 2, 3) or (s in ignored and pre[s] < 4):
                 h += [5, s]
         else:
             h += [6, s]
     for s in sigs:      # final report and a final delivery of everything that is safe to raise
         h += [6, s]
-        if s in taken or pre[s] != 0 or s in ignored:
+        if s in taken or pre[s] in (1, 2, 3) or (s in ignored and pre[s] < 4):
             h += [5, s]
     return h
 
@@ -184,8 +185,18 @@ def run_impl(histories):
     return lib, res
 
 
+def model_view(h):
+    """kinds 4 / 5 are the user handlers 2 / 3 installed with SA_RESETHAND|SA_NODEFER and a non-empty mask:
+    the model (and the property) does not distinguish them"""
+    h = list(h)
+    for j in range(h[0]):
+        if h[2 + 3 * j] >= 4:
+            h[2 + 3 * j] -= 2
+    return h
+
+
 def run_model(histories):
-    lines = ['run_c05 ' + ' '.join(map(str, h)) for _, h in histories]
+    lines = ['run_c05 ' + ' '.join(map(str, model_view(h))) for _, h in histories]
     res = common.run_driver('seqreg', lines)
     return {i: [int(x) for x in r.split()] for (i, _), r in zip(histories, res)}
 
